@@ -214,7 +214,12 @@ def run_shard(ctx):
     rng = ctx.rng('c14')
     rp = gen.RandomPrograms(rng, max_depth=4, max_eqs=5, max_names=8, big_offsets=True, lhs_offsets=(0, 0, 0, 0, -1, 1))
     for i in range(ctx.pick(80, 2500)):
+        # every fourth program is dense in period-label indexes (X['2000'], X[`2001`]): several of them per statement, with brackets
+        # opening and closing between them, so that a statement broken inside parentheses has labels on either side of the break
+        rp.named_rate = 0.35 if i % 4 == 3 else 0.04
         prog = rp.program()
+        if i % 4 == 3:
+            ctx.count('label_dense_programs')
         one_program(ctx, prog, rng)
     # small exhaustive shapes under the catalogue
     k = 0
